@@ -559,3 +559,7 @@ impl RusticError {
         })
     }
 }
+
+#[cfg(kani)]
+#[path = "/verif/harness/error.rs"]
+pub(crate) mod verif_harness;
